@@ -3,6 +3,7 @@
 package snaps
 
 import (
+	"bytes"
 	"fmt"
 	"os"
 	"path/filepath"
@@ -41,6 +42,36 @@ type vfCleanScenario struct {
 	Clean2   bool              `json:"clean2,omitempty"`   // run Clean a second time (idempotence)
 	DirName  string            `json:"dirname,omitempty"`  // name of the snapshot directory ("" = snaps)
 	DirSpell string            `json:"dirspell,omitempty"` // how the absolute Dir option is spelled: "" | slash | dot | dotdot | double
+	CRLF     bool              `json:"crlf,omitempty"`     // the pre-existing multi-entry files have CR LF line ends (ignored when a value or body holds a CR of its own)
+}
+
+// crlf: whether the scenario's files really are written with CR LF line ends.
+func (sc vfCleanScenario) crlf() bool {
+	if !sc.CRLF {
+		return false
+	}
+	for _, f := range sc.Files {
+		for _, e := range f.Entries {
+			if strings.Contains(e.Body, "\r") {
+				return false
+			}
+		}
+	}
+	for _, v := range sc.Append {
+		if strings.Contains(v, "\r") {
+			return false
+		}
+	}
+	for _, ts := range [][]vfTestExec{sc.Tests, sc.Tests2} {
+		for _, t := range ts {
+			for _, cl := range t.Calls {
+				if strings.Contains(cl.Val, "\r") {
+					return false
+				}
+			}
+		}
+	}
+	return true
 }
 
 type vfCleanObs struct {
@@ -117,6 +148,15 @@ func vfRunClean(c *vfCtx, sc vfCleanScenario) *vfCleanObs {
 		}
 		f.WriteString(v)
 		f.Close()
+	}
+	vfParseDropCR = sc.crlf() // (read by the checks that parse the observed files afterwards; set anew by every scenario)
+	if sc.crlf() {
+		for _, f := range sc.Files {
+			p := filepath.Join(dir, f.Name)
+			if b, err := os.ReadFile(p); err == nil {
+				os.WriteFile(p, bytes.ReplaceAll(b, []byte("\n"), []byte("\r\n")), 0o644)
+			}
+		}
 	}
 	for _, d := range sc.Dirs {
 		os.MkdirAll(filepath.Join(dir, d), 0o755)
